@@ -63,7 +63,7 @@ func c16Run(opts []string, args []string, version bool, spec string, argv []stri
 	}
 	os.Unsetenv("VQ_E")
 	for i, a := range args {
-		name := string(rune('A' + i))
+		name := c16ArgName(i)
 		s := new(bool)
 		sbus = append(sbus, s)
 		if a == "single" {
@@ -115,6 +115,9 @@ func c16Run(opts []string, args []string, version bool, spec string, argv []stri
 	return obs
 }
 
+// argument names chosen so that every later name is a suffix of the earlier ones
+func c16ArgName(i int) string { return []string{"SRC_DIR", "DIR", "IR"}[i] }
+
 func c16Alphabet(opts []string, version bool) []string {
 	a := []string{"x", "--", "-z"}
 	for _, o := range opts {
@@ -141,7 +144,7 @@ func c16Explicit(opts []string, args []string, version bool) string {
 		p = append(p, "[OPTIONS]")
 	}
 	for i := range args {
-		p = append(p, string(rune('A'+i)))
+		p = append(p, c16ArgName(i))
 	}
 	return strings.Join(p, " ")
 }
